@@ -39,6 +39,10 @@ MANIFEST = {
 }
 
 
+# proof modules about the specification, checked by tlapm on every run (started by the driver next to leg A)
+TLAPS = [('StoreProofs.tla', ['Store.tla']), ('LoaderProofs.tla', ['Loader.tla'])]
+
+
 def leg_a(ctx):
     return [{"spec": "MC_Store.tla", "cfg": "MC_Store.cfg", "coverage": True, "workers": 2,
              "what": "all histories of <= 3 saves and any loads over 2 names x 2 models x safe/unsafe"},
@@ -155,7 +159,6 @@ def run(ctx, pool):
     if collisions == 0:
         res["failures"].append("vacuous: no forced directory-name collision occurred")
     res["trace_lookup"] = lambda v: [{k: x for k, x in v["record"].items() if k not in ("before", "after", "fields")}]
-    core.attach_tlaps(ctx, res, [('StoreProofs.tla', ['Store.tla']), ('LoaderProofs.tla', ['Loader.tla'])])
     return res
 
 
